@@ -27,7 +27,7 @@ class Prop(BaseProp):
     must_see = ["exact_tie_distance_equals_window", "simultaneous_event", "spike_on_t_start", "spike_on_t_end",
                 "max_tau_none", "max_tau_zero", "max_tau_positive", "mrts_below_all_isis", "mrts_between_isis",
                 "mrts_above_all_isis", "both_empty", "coincidence_found", "interp_regime_theta_below_min",
-                "interp_regime_theta_between", "interp_regime_theta_above"]
+                "interp_regime_theta_between", "interp_regime_theta_above", "max_tau_python_int", "mrts_python_int"]
     must_contracts = ["inv:DiscreteFunc", "post:get_tau"]
     arm_files = [("pyspike/cython/python_backend.py", ["coincidence_python", "coincidence_single_python", "get_tau",
                                                        "Interpolate"])]
